@@ -267,6 +267,9 @@ pub enum Enc {
     Base64Packed,
     /// both parameters given (protocol violation)
     Both,
+    /// both parameters given, one of them undecodable (still a protocol violation: both are PRESENT)
+    BothBadHex,
+    BothBadBase64,
     /// both null (protocol violation)
     Neither,
     /// `data` = a string that is not hex
@@ -449,6 +452,9 @@ fn enc_params(bytes: &Hx, enc: Enc) -> (Value, Value) {
             (Value::Null, json!(s))
         }
         Enc::Both => (json!(bytes.hex0x()), json!(b64(bytes))),
+        Enc::BothBadHex => (json!("0xzz"), json!(b64(bytes))),
+        // 0x07 is no compression method
+        Enc::BothBadBase64 => (json!(bytes.hex0x()), json!("BwECAw")),
         Enc::Neither => (Value::Null, Value::Null),
         Enc::BadHex => (json!("0xzz-not-hex"), Value::Null),
         Enc::BadBase64 => (Value::Null, json!("!!*not*base64*!!")),
@@ -1016,7 +1022,7 @@ impl Tracker {
     /// must be answered with an error. (`None` = no expectation.)
     pub fn must_reject(&self, op: &Op) -> Option<&'static str> {
         let waiting = self.waiting();
-        let both_neither = |e: &Enc| match e { Enc::Both => Some("both encodings given"), Enc::Neither => Some("neither encoding given"), _ => None };
+        let both_neither = |e: &Enc| match e { Enc::Both | Enc::BothBadHex | Enc::BothBadBase64 => Some("both encodings given"), Enc::Neither => Some("neither encoding given"), _ => None };
         match op {
             Op::Deploy { enc, .. } | Op::Call { enc, .. } => if let Some(r) = both_neither(enc) { return Some(r); },
             Op::Transact { enc, .. } => {
@@ -1882,9 +1888,9 @@ pub fn inject_malformed(rng: &mut Rng, h: &[Op], count: usize) -> (Vec<Op>, Vec<
             11 => ("reorg_anywhere", Op::Reorg(rng.below(4))),
             12 => ("mine_anywhere", Op::Mine { n: 1, ts }),
             13 => ("mine_zero", Op::Mine { n: 0, ts }),
-            14 => ("both_encodings", if rng.chance(1, 2) { mk_deploy(Enc::Both, fresh.clone()) } else { mk_call(Enc::Both, Idx::Auto, ts, hash.clone(), fresh.clone()) }),
+            14 => { let e = *rng.pick(&[Enc::Both, Enc::BothBadHex, Enc::BothBadBase64]); ("both_encodings", if rng.chance(1, 2) { mk_deploy(e, fresh.clone()) } else { mk_call(e, Idx::Auto, ts, hash.clone(), fresh.clone()) }) }
             15 => ("neither_encoding", match rng.below(3) { 0 => mk_deploy(Enc::Neither, fresh.clone()), 1 => mk_call(Enc::Neither, Idx::Auto, ts, hash.clone(), fresh.clone()), _ => mk_transact(Enc::Neither, vec![], fresh.clone()) }),
-            16 => ("transact_both_encodings", mk_transact(Enc::Both, sign_legacy(0, 0, None, vec![], CHAIN_ID), fresh.clone())),
+            16 => ("transact_both_encodings", mk_transact(*rng.pick(&[Enc::Both, Enc::BothBadHex, Enc::BothBadBase64]), sign_legacy(0, 0, None, vec![], CHAIN_ID), fresh.clone())),
             17 => ("transact_bad_hex", mk_transact(Enc::BadHex, vec![], fresh.clone())),
             18 => ("transact_bad_base64", mk_transact(Enc::BadBase64, vec![], fresh.clone())),
             19 => ("transact_garbage_rlp", mk_transact(Enc::Hex, vec![0xf8, 0x99, 1, 2, 3], fresh.clone())),
